@@ -41,7 +41,7 @@ def main():
         if rc: print('cmake configure failed\n' + out[-2000:]); return
         rc, out = sh('cmake --build %s/_b --target %s' % (wt, ' '.join(targets)))
         if rc: print('TESTS DO NOT BUILD with the patch\n' + out[-3000:]); return
-        rx = '|'.join(t[:-5] if t.endswith('_test') else t for t in targets)
+        rx = '^(' + '|'.join(targets) + ')$'
         rc, out = sh('cd %s/_b && ctest -R "%s" --timeout 1800 -j8' % (wt, rx))
         m = re.search(r'(\d+)% tests passed, (\d+) tests failed out of (\d+)', out)
         ran['ctest'] = m.group(0) if m else out[-300:]
